@@ -220,5 +220,5 @@ func c10(r *mon.Run) {
 				t.Nontrivial(fmt.Sprint("many:", name, k, kind))
 			}
 		}}
-	r.Exec(exh, by, many, rnd)
+	r.Exec(exh, by, many, rnd, sizedWorkload(r, "sized-arrays-ill-typed", true))
 }
